@@ -10,7 +10,7 @@ list (an out-parameter) is not remembered state of the callee.
 from __future__ import annotations
 
 import ast
-from typing import List, Optional, Set
+from typing import List, Optional, Set, Tuple
 
 from . import source
 
@@ -359,14 +359,69 @@ def module_global_writes(f: ast.AST, names: Set[str]) -> List[Tuple[ast.AST, str
     return out
 
 
+def class_mutable_attrs(tree: ast.Module) -> Set[Tuple[str, str]]:
+    """(class name, attribute) bound in a class BODY to a list/dict/set display or constructor call - one object for the whole process -
+    unless a method of the class rebinds it on the instance (self.<attr> = ..), which gives every instance its own."""
+    out: Set[Tuple[str, str]] = set()
+    for c in ast.walk(tree):
+        if not isinstance(c, ast.ClassDef):
+            continue
+        rebound = {t.attr for f in c.body if isinstance(f, ast.FunctionDef) for a in ast.walk(f) if isinstance(a, (ast.Assign, ast.AnnAssign))
+                   for t in (a.targets if isinstance(a, ast.Assign) else [a.target])
+                   if isinstance(t, ast.Attribute) and isinstance(t.value, ast.Name) and t.value.id == "self"}
+        for n in c.body:
+            vals = []
+            if isinstance(n, ast.Assign):
+                vals = [(t, n.value) for t in n.targets]
+            elif isinstance(n, ast.AnnAssign) and n.value is not None:
+                vals = [(n.target, n.value)]
+            for t, v in vals:
+                if isinstance(t, ast.Name) and t.id not in rebound and (isinstance(v, (ast.List, ast.Dict, ast.Set, ast.ListComp, ast.DictComp, ast.SetComp)) or (
+                        isinstance(v, ast.Call) and isinstance(v.func, ast.Name) and v.func.id in ("list", "dict", "set", "OrderedDict", "defaultdict"))):
+                    out.add((c.name, t.id))
+    return out
+
+
+def class_attr_writes(f: ast.AST, attrs: Set[Tuple[str, str]]) -> List[Tuple[ast.AST, str, str]]:
+    """[(node, 'Class.attr', how)]: item stores / deletes / mutator calls on a class-level mutable object reached as self.<attr>,
+    cls.<attr>, type(self).<attr> or <Class>.<attr> inside f."""
+    names = {a for (_, a) in attrs}
+    classes = {c for (c, _) in attrs}
+
+    def hit(e: ast.AST) -> Optional[str]:
+        if isinstance(e, ast.Attribute) and e.attr in names:
+            base = source.src(e.value)
+            if base in ("self", "cls", "type(self)", "self.__class__") or base.split(".")[-1] in classes:
+                owner = next((c for (c, a) in sorted(attrs) if a == e.attr and (base.split(".")[-1] == c or base in ("self", "cls", "type(self)", "self.__class__"))), None)
+                return "%s.%s" % (owner, e.attr) if owner else None
+        return None
+    out: List[Tuple[ast.AST, str, str]] = []
+    for n in ast.walk(f):
+        if isinstance(n, (ast.Assign, ast.AnnAssign, ast.AugAssign)):
+            for t in (n.targets if isinstance(n, ast.Assign) else [n.target]):
+                if isinstance(t, ast.Subscript) and hit(t.value):
+                    out.append((n, hit(t.value), "item store"))
+        elif isinstance(n, ast.Delete):
+            for t in n.targets:
+                if isinstance(t, ast.Subscript) and hit(t.value):
+                    out.append((n, hit(t.value), "item delete"))
+        elif isinstance(n, ast.Call) and isinstance(n.func, ast.Attribute) and n.func.attr in MUTATORS and hit(n.func.value):
+            out.append((n, hit(n.func.value), "%s()" % n.func.attr))
+    return out
+
+
 # ------------------------------------------------------------------------------------------------------------------
 # local memos:  if K not in D: D[K] = f(args)  - the key has to cover every argument that varies between the iterations
 # ------------------------------------------------------------------------------------------------------------------
 
-def memo_key_gaps(f: ast.AST) -> List[Tuple[ast.Assign, str, str, List[str]]]:
-    """[(store, table, key text, loop-variant argument names of the memoised call that the key does not mention)]"""
+def memo_key_gaps(f: ast.AST, params_vary: bool = False) -> List[Tuple[ast.Assign, str, str, List[str]]]:
+    """[(store, table, key text, loop-variant argument names of the memoised call that the key does not mention)]
+
+    ``params_vary``: f is a helper that is called once per item (a nested function / lambda target): its own parameters change
+    from call to call, so they count as variant too (the table then has to live outside f: a name f does not assign)."""
     from . import match
     out = []
+    own_params = {a.arg for a in f.args.posonlyargs + f.args.args + f.args.kwonlyargs} if params_vary and isinstance(f, (ast.FunctionDef, ast.Lambda)) else set()
     for iff in source.walk_own(f):
         if not isinstance(iff, ast.If):
             continue
@@ -379,7 +434,7 @@ def memo_key_gaps(f: ast.AST) -> List[Tuple[ast.Assign, str, str, List[str]]]:
                     and isinstance(st.targets[0].value, ast.Name) and st.targets[0].value.id == table
                     and source.src(st.targets[0].slice) == source.src(key) and isinstance(st.value, ast.Call)):
                 continue
-            variant: Set[str] = set()
+            variant: Set[str] = set(own_params)
             for lp in [a for a in source.ancestors(iff) if isinstance(a, (ast.For, ast.While))]:
                 if isinstance(lp, ast.For):
                     variant |= {x.id for x in ast.walk(lp.target) if isinstance(x, ast.Name)}
@@ -392,5 +447,7 @@ def memo_key_gaps(f: ast.AST) -> List[Tuple[ast.Assign, str, str, List[str]]]:
                             variant |= {x.id for x in ast.walk(a.target) if isinstance(x, ast.Name)}
             args = {x.id for a in list(st.value.args) + [k.value for k in st.value.keywords] for x in ast.walk(a) if isinstance(x, ast.Name)}
             knames = {x.id for x in ast.walk(key) if isinstance(x, ast.Name)}
+            if isinstance(key, ast.Name):       # a key built in a local first: what the local is made of counts
+                knames |= {x.id for x in ast.walk(match.resolve_local(f, key)) if isinstance(x, ast.Name)}
             out.append((st, table, source.src(key), sorted((args & variant) - knames - {table})))
     return out
